@@ -2,7 +2,10 @@
    I  s;s;...            sets of hex numbers separated by ',' ("-" = empty set)  -> F:<hex|->|A:<hex,..>
    A  mode ctx phrase vocabhex S l l S l ...   ARPA sections of hex lines ("-" = empty)  -> OK f f .. | NOTAB | FUEL
    R  mode ctx phrase vocabhex l l ...         raw lines                                  -> same
-   W  ctx ngramhex       -> the words the filter looks at (hex, space separated) *)
+   W  ctx ngramhex       -> the words the filter looks at (hex, space separated)
+   P  ctx vocabhex g g ...   phrase vocabulary + n-gram fields: the structure-faithful graph search (Substrings tables,
+                             BuildGraph, Arc/Vertex::LowerBound) against the decision procedure derivable_b, union and multiple
+                             -> same | DIFF <index> ... | FUEL <index> *)
 open C11_model
 (*INCLUDE zio*)
 
@@ -46,6 +49,20 @@ let handle (line : string) : string =
       show (filter_arpa (cfg m c p) (bytes_of_hex vocab) [])
   | "R" :: m :: c :: p :: vocab :: lines ->
       show (filter_raw (cfg m c p) (bytes_of_hex vocab) (List.map bytes_of_hex lines))
+  | "P" :: c :: vocab :: grams ->
+      let sents = read_phrases (bytes_of_hex vocab) in
+      let show_l l = String.concat "," (List.map (fun v -> string_of_int (int_of_nat v)) l) in
+      let rec go i = function
+        | [] -> "same"
+        | g :: rest ->
+            let ws = filter_words (c = "1") (bytes_of_hex g) in
+            (match graph_union_pass sents ws, graph_multiple_targets sents ws with
+             | Ok u, Ok m ->
+                 let u' = phrase_union_pass sents ws and m' = phrase_multiple_targets sents ws in
+                 if u = u' && m = m' then go (i + 1) rest
+                 else Printf.sprintf "DIFF %d graph:%b[%s] dp:%b[%s]" i u (show_l m) u' (show_l m')
+             | _ -> Printf.sprintf "FUEL %d" i) in
+      go 0 grams
   | "W" :: c :: g :: [] ->
       String.concat " " (List.map hex_of_bytes (filter_words (c = "1") (bytes_of_hex g)))
   | _ -> "?"
